@@ -311,13 +311,12 @@ class Ref:
                 yt = t.fit_transform(yt)
             self.final = Ref(s[3]).fit(yt, fh)
         elif k == "stack":
-            from sklearn.linear_model import LinearRegression
             hmax = max(fh)
             split = len(y) - hmax
             members = [Ref(c).fit(y.iloc[:split], fh) for c in s[2]]
             X_meta = np.column_stack([m.predict(fh).values for m in members])
             y_meta = np.array([y.iloc[split - 1 + h] for h in fh])
-            self.reg = LinearRegression().fit(X_meta, y_meta)
+            self.reg = zoo.build_regressor("raw" + s[1].get("reg", "lin")).fit(X_meta, y_meta)
             self.members = [Ref(c).fit(y, fh) for c in s[2]]
         else:
             self.leaf = zoo.build(s)
